@@ -115,8 +115,8 @@ def split_gradient_at(
 
     # If the split line goes through the delay
     if time_point < grad.delay:
-        times = np.concatenate(([0], grad.delay + times))
-        amplitudes = [0, amplitudes]
+        times = np.concatenate(([0], grad.delay + np.asarray(times)))
+        amplitudes = np.concatenate(([0], amplitudes))
         grad.delay = 0
     else:
         time_point -= grad.delay
